@@ -11,7 +11,8 @@
 From Coq Require Import List ZArith NArith Bool Lia.
 From Tink Require Import Bytes Wrap MldsaScalar MldsaScalarProofs MldsaScalarProofs2 MldsaTableProofs
   MldsaKernels MldsaKernelsProofs MldsaPoly Mldsa
-  MldsaPackProofs MldsaHintProofs MldsaUseHintProofs MldsaLowBitsProofs MldsaNttProofs MldsaProofs MldsaExamples.
+  MldsaPackProofs MldsaHintProofs MldsaUseHintProofs MldsaLowBitsProofs MldsaNttProofs MldsaAlgebraProofs
+  MldsaProofs MldsaExamples.
 Import ListNotations.
 Local Open Scope Z_scope.
 
@@ -148,6 +149,47 @@ Theorem C10_ntt_additive : forall a b, length a = 256%nat -> length b = 256%nat 
   ntt (padd a b) = padd (ntt a) (ntt b) /\ intt (padd a b) = padd (intt a) (intt b).
 Proof. intros a b La Lb Ca Cb. exact (conj (ntt_add a b La Lb Ca Cb) (intt_add a b La Lb Ca Cb)). Qed.
 Print Assumptions C10_ntt_additive.
+
+Theorem C10_ntt_subtractive : forall a b, length a = 256%nat -> length b = 256%nat ->
+  Forall (fun c => 0 <= c < q) a -> Forall (fun c => 0 <= c < q) b ->
+  ntt (psub a b) = psub (ntt a) (ntt b) /\ intt (psub a b) = psub (intt a) (intt b).
+Proof. intros a b La Lb Ca Cb. exact (conj (ntt_sub a b La Lb Ca Cb) (intt_sub a b La Lb Ca Cb)). Qed.
+Print Assumptions C10_ntt_subtractive.
+
+(* Towards "every produced signature verifies" (FULL STATEMENT, not proved:
+     keyGenInternal seed = Some (pk, sk) -> signInternalWithMu fuel sk mu rnd = Some sigma ->
+     verifyInternalWithMu pk mu sigma = Some true).
+   Proved here: the algebraic identity verification rests on, with every
+   product computed as the code does (ntt, pointwise product, intt): for
+   t = A*s1 + s2, (t1, t0) = Power2Round(t), z = y + c*s1, the verifier's
+   w' = intt(A^ o ntt z - ntt c o ntt(t1*2^d)) equals w - c*s2 + c*t0.
+   Together with C10_useHint_makeHint (w1' = HighBits(w - c*s2) since
+   ||c*t0|| < gamma2) and C10_highBits_stable (HighBits(w - c*s2) =
+   HighBits(w) since ||r0|| < gamma2 - beta) this is the whole argument.
+   MISSING for the full statement: ||c*s2||_inf <= beta for the product as
+   computed through the NTT (needs: pointwise multiplication in the NTT
+   domain is negacyclic convolution), and the assembly of the codec round
+   trip and norm conditions of signAttempt. *)
+Theorem C10_sign_then_verify_algebra_partial : forall k l Ah s1 s2 y c,
+  cmat k l Ah -> cvec l s1 -> cvec k s2 -> cvec l y -> cpoly c ->
+  let s1h := vntt s1 in let s2h := vntt s2 in
+  let t := vadd (vintt (mmul Ah s1h)) s2 in
+  let t1 := map fst (map ppower2Round t) in
+  let t0 := map snd (map ppower2Round t) in
+  let t0h := vntt t0 in
+  let ch := ntt c in
+  let w := vintt (mmul Ah (vntt y)) in
+  let cs1 := vintt (vscalarMul ch s1h) in
+  let cs2 := vintt (vscalarMul ch s2h) in
+  let ct0 := vintt (vscalarMul ch t0h) in
+  let z := vadd y cs1 in
+  vintt (vsub (mmul Ah (vntt z)) (vscalarMul ch (vntt (map pscalePower2 t1)))) = vadd (vsub w cs2) ct0.
+Proof. exact verify_recomputes_w. Qed.
+Print Assumptions C10_sign_then_verify_algebra_partial.
+
+Example C10_sign_then_verify_algebra_inhabited :
+  cmat 1 1 [[zero_poly]] /\ cvec 1 [zero_poly] /\ cpoly zero_poly.
+Proof. exact ex_algebra_inhabited. Qed.
 
 (* ------------------------------------------------------------------ *)
 (* 5. bit packing (Algorithms 16-19)                                   *)
